@@ -276,6 +276,12 @@ func checkC03(c *Ctx) (string, []string) {
 				c.OK("C03.blob-guards", key, s.in.Pos(), "%s", why)
 				continue
 			}
+			// Not demanded here: the GP validity test "entries × entry length < 2^32" of DeBlobProgramCode. It is
+			// not a necessary condition of crash freedom: ReadBytes bounds the table data by the remaining blob
+			// whatever the product is, JumpTable.Size is the low 32 bits of the entry count, and djump's offset
+			// index·Length (index < Size, Length ≤ 255, 32-bit arithmetic) is at most the low 32 bits of the true
+			// offset, which lies inside Data — with the test in place exactly, without it a fortiori for
+			// |Data| ≥ 2^32. A rule demanding the test would alarm on code where C03 holds.
 			if f.Name() == "MakeBitMasks" {
 				// the two reads inside the walk over the instruction octets: i/8 into the mask and the previous instruction start;
 				// their range follows from the length test below (non-linear: ⌈n/8⌉) and from prev ≤ i
@@ -464,14 +470,18 @@ func blobSiteByPostcondition(f *ssa.Function, in ssa.Instruction) string {
 		proven, rets := true, 0
 		allInstrs(g, func(ri ssa.Instruction) {
 			r, isR := ri.(*ssa.Return)
-			if !isR || len(r.Results) != nres {
+			if !isR {
 				return
 			}
-			if k, isC := r.Results[nres-1].(*ssa.Const); isC {
+			res := retResults(r)
+			if len(res) != nres {
+				return
+			}
+			if k, isC := res[nres-1].(*ssa.Const); isC {
 				if n, isInt := constInt(k); k.Value != nil && (!isInt || n != 0) {
 					return // a failure return
 				}
-			} else if !isErrorNilable(r.Results[nres-1]) {
+			} else if !isErrorNilable(res[nres-1]) {
 				// a computed status: may be success
 			} else {
 				return // a non-nil error value
@@ -479,7 +489,7 @@ func blobSiteByPostcondition(f *ssa.Function, in ssa.Instruction) string {
 			rets++
 			var bound lin
 			if resIdx >= 0 {
-				bound = bp.linOf(r.Results[resIdx], 0)
+				bound = bp.linOf(res[resIdx], 0)
 			} else {
 				bound = bp.linOf(g.Params[argIdx], 0)
 			}
